@@ -436,6 +436,52 @@ func (m *fieldMachine) vectors(pool []*big.Int, lens []int) {
 	}
 }
 
+func montCarryPairs(f *Field, rng *Rng) [][2]*big.Int {
+	if f.Limbs < 2 {
+		return nil
+	}
+	W := uint(f.WBits)
+	mod := new(big.Int).Lsh(big.NewInt(1), W)
+	mask := new(big.Int).Sub(mod, big.NewInt(1))
+	limb := func(x *big.Int, j int) *big.Int { return new(big.Int).And(new(big.Int).Rsh(x, uint(j)*W), mask) }
+	q0 := limb(f.Q, 0)
+	targets := []*big.Int{new(big.Int).Set(mask), new(big.Int).Sub(mask, big.NewInt(1)), big.NewInt(1), new(big.Int).Lsh(big.NewInt(1), W-1)}
+	for j := 0; j < f.Limbs; j++ {
+		qj := limb(f.Q, j)
+		if qj.Bit(0) == 1 {
+			inv := new(big.Int).ModInverse(qj, mod)
+			targets = append(targets, new(big.Int).Sub(mod, inv)) // lo(T*q[j]) = 2^W - 1
+			targets = append(targets, inv)                        // lo(T*q[j]) = 1
+		}
+	}
+	var out [][2]*big.Int
+	one := big.NewInt(1)
+	for _, T := range targets {
+		y0 := new(big.Int).Mul(T, q0)
+		y0.Neg(y0).Mod(y0, mod)
+		for rep := 0; rep < 2; rep++ {
+			hi := rng.Below(f.Q)
+			if rep == 1 {
+				hi = new(big.Int).Sub(f.Q, one) // upper limbs as large as the modulus allows: large incoming carries
+			}
+			y := new(big.Int).Or(new(big.Int).Lsh(new(big.Int).Rsh(hi, W), W), y0)
+			if y.Cmp(f.Q) >= 0 {
+				y.Sub(y, new(big.Int).Lsh(one, W*uint(f.Limbs-1))) // clear one unit of the top limb
+				if y.Sign() < 0 || y.Cmp(f.Q) >= 0 {
+					continue
+				}
+			}
+			out = append(out, [2]*big.Int{one, y})
+			// both operands with the crafted low limb: x = 1 + 2^W * (random upper limbs) keeps x[0] = 1
+			x := new(big.Int).Or(new(big.Int).Lsh(new(big.Int).Rsh(rng.Below(f.Q), W), W), one)
+			if x.Cmp(f.Q) < 0 {
+				out = append(out, [2]*big.Int{x, y})
+			}
+		}
+	}
+	return out
+}
+
 func init() { register("c01", runC01) }
 
 func runC01(args []string) {
@@ -483,6 +529,13 @@ func runC01(args []string) {
 				m.battery(a, b, cnt%7 == 0)
 				cnt++
 			}
+		}
+		// operands that drive the Montgomery reduction factor m of the first round to chosen words (all ones, the words
+		// that make lo(m*q[j]) all ones, ...): the carries of the word-level multiplication that random operands meet with
+		// probability 2^-64. With the raw operand 1, m = y[0] * (-1/q[0]), so y[0] = -T*q[0] gives m = T.
+		for _, pr := range montCarryPairs(f, rng) {
+			m.battery(pr[0], pr[1], false)
+			m.battery(pr[1], pr[0], false)
 		}
 		for cnt < nPairs {
 			a := pool[rng.Intn(len(pool))]
